@@ -68,7 +68,13 @@ def ext_exc_info(ex, args, kw):
 
 
 def ext_format_exception(ex, args, kw):
-    return SV(ValS, z3.Const('formatted_lines', Val))
+    """traceback.format_exception(type, value, tb): the text; ghost: which traceback object it was formatted from
+    (the original one names every frame; the depth-limited stand-in ends in the truncation marker)"""
+    tb = args[2]
+    from_original = isinstance(tb, SRef) and tb.shape.cls == 'PyTB'
+    gset(ex, 'text_from', SV(IntS, tb.id) if from_original else mk_int(-1))
+    f = z3.Function('formatted_lines', z3.IntSort(), Val)
+    return SV(ValS, f(gget(ex, 'text_from').e))
 
 
 def ext_join(ex, args, kw):
@@ -95,7 +101,7 @@ def sp_remote_tb(ex, tb):
 
 
 def build(w):
-    w.cls('g', fields={'exc_type': ValS, 'exc_value': ValS, 'exc_tb': ref('PyTB')})
+    w.cls('g', fields={'exc_type': ValS, 'exc_value': ValS, 'exc_tb': ref('PyTB'), 'text_from': IntS})
     w.cls('PyCode', fields={n: ValS for n in ('co_filename', 'co_name', 'co_argcount', 'co_firstlineno', 'co_flags',
                                                'co_names', 'co_nlocals', 'co_stacksize', 'co_qualname')},
           methods={'co_positions': lambda ex, a, k: SV(ValS, z3.Const(fresh_name('positions'), Val))})
@@ -193,13 +199,15 @@ def build(w):
         'einfo.ExceptionInfo.__init__', prop=PROP,
         params={'self': ref('EInfo'), 'exc_info': opt(ValS), 'internal': BoolS},
         requires={'chain_wf': chain_wf, 'from_the_handled_exception': 'exc_info is None and is_tb(idof(g.exc_tb))'},
-        modifies=['self.type', 'self.tb', 'self.traceback', 'self.internal', 'self.exception'],
+        modifies=['self.type', 'self.tb', 'self.traceback', 'self.internal', 'self.exception', 'g.text_from'],
         ensures={
             'original_type': 'self.type == g.exc_type',
             'traceback_object_of_the_raising_frames': 'self.tb.g_src == idof(g.exc_tb) and not self.tb.g_trunc and '
                                                       'self.tb.g_chain <= DEFAULT_MAX_FRAMES + 3 and '
                                                       'self.tb.tb_lineno == g.exc_tb.tb_lineno',
             'internal_flag_kept': 'self.internal == internal',
+            # the text names the raising frame: it is formatted from the original traceback, not from the depth-limited stand-in
+            'text_formatted_from_the_original_traceback': 'g.text_from == idof(g.exc_tb)',
         },
     )
     ewt_reduce = Contract(
